@@ -5,7 +5,8 @@ import harness
 
 props = [json.loads(l)["id"] for l in open("properties.jsonl")]
 checks, na = [], []
-mods = {m.name for m in pkgutil.iter_modules(harness.__path__)}
+ready = set(open("tools/ready.txt").read().split())
+mods = {m.name for m in pkgutil.iter_modules(harness.__path__) if m.name.upper() in ready}
 for pid in props:
     name = pid.lower()
     if name not in mods:
